@@ -168,6 +168,7 @@ def run(ctx):
         ctx.leanchecker(PROPS)
 
     corr_broken = []
+    binp = None
     if not ctx.build_driver("e7"):
         corr_broken.append("driver drv_e7 does not build against the regenerated tables")
         ctx.broken_ties.append("lake build drv_e7")
@@ -230,6 +231,21 @@ def run(ctx):
             for idx, a, b in diffs:
                 ctx.log("model/impl disagree on `%s`:\n   impl=%s\n  model=%s" % (ops[idx][:400], a, b))
                 corr_broken.append("correspondence %s line %d" % (name, idx))
+    # known finding, replayed (not remembered): the notification loop with an unreachable endpoint
+    if binp and not ctx.replay_in:
+        rc, out = ctx.run_cmd([binp, "-test.run", "^TestVerifE7NotifyEndpointDown$", "-test.count=1", "-test.timeout=60s"],
+                              timeout=90, env={"VERIF_SEED": ctx.seed, "VERIF_OUT": ctx.work})
+        ctx.count_case("notify-endpoint-down", nontrivial=True)
+        if "NOTIFY-OK" in out and rc == 0:
+            ctx.corr["notify_endpoint_down"] = "survived"
+        elif "panic:" in out or "SIGSEGV" in out:
+            ctx.corr["notify_endpoint_down"] = "process died"
+            ctx.violation("crash:handleAdminActions",
+                          "nsqadmin died in handleAdminActions after an admin action because the notification endpoint is unreachable",
+                          "replay: corpus/C17/known/notify_endpoint_down.ops (harness test TestVerifE7NotifyEndpointDown)\n\n" + out[-2500:])
+        else:
+            ctx.log("notify test failed:\n" + out[-1500:])
+            corr_broken.append("harness TestVerifE7NotifyEndpointDown exit %s" % rc)
     if (ctx.broken_ties or corr_broken) and not ctx.violations:
         ctx.broken_without_input(ctx.broken_ties + corr_broken,
                                  "search: %d generated requests; the direct oracle found no unauthenticated request "
